@@ -741,3 +741,4 @@ MANIFEST = {
     "note": "Trusted: pickle/copy themselves; the probe sets. == across registries is not asserted (the property names arithmetic and ordering). Duck arrays other than ndarray are outside.",
     "ref": "DESIGN.md §4 C18",
 }
+MANIFEST["text"] += ' Fresh-interpreter loads run under ANOTHER string-hash salt, also for objects that were compared / hashed / used as keys / converted before pickling; the loaded units and containers must be equal (both orders), hash alike and be found as dict keys against the same thing built in that interpreter.'
